@@ -359,6 +359,27 @@ def native_C20(tier, seed):
         if r1 != r2:
             what = "weights" if r1[0] != r2[0] else "samples/evidence"
             fails.append({"id": f"C20-zuko-{sd}", "obligation": "C20:torch.manual_seed", "what": f"two zuko construct+fit+importance runs with seed={sd} differ in {what}", "input": {"seed": sd}})
+    # a saved flow reloaded twice in one process: the seed stored with it governs what is drawn after each load
+    import io
+    import h5py
+    from aspire.flows.torch.flows import ZukoFlow
+    for sd in ([3] if tier == "quick" else [3, 99]):
+        cases += 1
+        a0 = mk(seed=sd)
+        a0.fit(SA, n_epochs=1)
+        bio = io.BytesIO()
+        with h5py.File(bio, "w") as f5:
+            a0.flow.save(f5, "flow")
+
+        def reload_and_draw():
+            with h5py.File(io.BytesIO(bio.getvalue()), "r") as f5:
+                fl = type(a0.flow).load(f5, "flow")
+            x, lq = fl.sample_and_log_prob(16)
+            return np.asarray(x.detach() if hasattr(x, "detach") else x).tobytes()
+        d1, d2 = reload_and_draw(), reload_and_draw()
+        if d1 != d2:
+            fails.append({"id": f"C20-zuko-reload-{sd}", "obligation": "C20:torch.manual_seed", "what": f"a zuko flow saved with seed={sd} and loaded twice in the same process draws different samples after the two loads",
+                          "input": {"seed": sd, "sequence": "save; load; draw; load; draw"}})
     # routing through the top-level call: known finding for MiniPCNSMC (constructor route)
     a = mk()
     a.fit(SA, n_epochs=1)
